@@ -56,6 +56,10 @@ var otherTokens = []tokDef{
 	{"CJK = /[\\x4E2D\\x6587]+/", "CJK", []string{"中", "中文", "文中文"}},
 	{"EMOJI = /\\x0001F600/", "EMOJI", []string{"😀"}},
 	{"ARROW = /->|=>/", "ARROW", []string{"->", "=>"}},
+	// every length class and the first and last lead byte of each: C2/DF (two bytes), E0/ED/EE/EF (three), F0/F4 (four)
+	{"CYR = /[\\x0430-\\x044F]+/", "CYR", []string{"да", "привет", "я"}},
+	{"HEB = /[\\x05D0-\\x05EA]+/", "HEB", []string{"שלום", "א"}},
+	{"EDGE = /[\\x0080\\x07FF\\x0800\\xD7FF\\xE000\\xFFEE\\x00010000\\x0010FFFF]+/", "EDGE", []string{"\u0080", "\u07ff", "\u0800", "\ud7ff", "\ue000", "\uffee", "\U00010000", "\U0010FFFF", "\u07ff\u0800\U0010FFFF\u0080"}},
 }
 
 // whitespace / comment variants
@@ -240,7 +244,7 @@ func compare(p *prepared, text string, res *emit.LexResult) error {
 	return nil
 }
 
-var nearMisses = []string{"1.", "@", "\"abc", "~", "1.x", "é", "\x01", "-", "=>>", "#A"}
+var nearMisses = []string{"1.", "@", "\"abc", "~", "1.x", "é", "\x01", "-", "=>>", "#A", "ж", "\u07ff", "\U0010FFFF"}
 
 func genInput(t *rapid.T, p *prepared) string {
 	var b strings.Builder
